@@ -120,6 +120,8 @@ func c16Model(method, reqPath string, o c16Opts) c16Expect {
 type c16World struct {
 	f      *flamego.Flame
 	marker int
+	// what the rest of the chain saw of the request when Static passed it on
+	seenPath, seenURI string
 }
 
 func c16Build(root string, o c16Opts) *c16World {
@@ -142,6 +144,7 @@ func c16Build(root string, o c16Opts) *c16World {
 	w.f.Use(flamego.Static(so))
 	w.f.NotFound(func(c flamego.Context) {
 		w.marker++
+		w.seenPath, w.seenURI = c.Request().URL.Path, c.Request().RequestURI
 		c.ResponseWriter().WriteHeader(299)
 		_, _ = c.ResponseWriter().Write([]byte("MARKER"))
 	})
@@ -220,6 +223,9 @@ func c16Judge(w *c16World, o c16Opts, method, p, inm string) (bad, kind, class s
 	case "pass":
 		if w.marker != 1 || spy.code != 299 || (body != "MARKER" && !(method == "HEAD" && body == "")) {
 			return fmt.Sprintf("cannot serve (model: pass) but the response is status %d body %q, rest of the chain ran %d times", spy.code, trunc(body), w.marker), "wrote-when-it-cannot-serve", ""
+		}
+		if w.seenPath != p || w.seenURI != p {
+			return fmt.Sprintf("cannot serve: the request is passed on, but the rest of the chain sees URL.Path %q / RequestURI %q instead of %q", w.seenPath, w.seenURI, p), "request-altered-when-passed-on", ""
 		}
 		for _, h := range []string{"Expires", "Cache-Control", "Etag", "Location"} {
 			if spy.hdr.Get(h) != "" {
